@@ -890,6 +890,9 @@ func (e *Env) evalCall(n *ast.CallExpr) Value {
 		return scalar(types.Typ[types.Float64], v.one())
 	case "wrap32u":
 		return scalar(types.Typ[types.Uint32], app("mu32", sInt, e.eval(n.Args[0]).one()))
+	case "wrap64":
+		// the value an int64 variable holds after the same arithmetic (for ghosts that mirror a machine counter)
+		return scalar(types.Typ[types.Int64], app("ws64", sInt, e.eval(n.Args[0]).one()))
 	case "min", "max":
 		a, b := e.eval(n.Args[0]).one(), e.eval(n.Args[1]).one()
 		if fname == "min" {
